@@ -59,7 +59,7 @@ fn plan(p: &str) -> Option<Plan> {
         "C18" => d(&[("net-chaos", 9), ("dag-faults", 1)], &["C18"], 6000, 80000, "a corrupted, truncated, misdelivered or duplicated message reached a decoder"),
         "C19" => d(&[("hello", 7), ("dag", 2), ("dag-faults", 1), ("crash", 2)], &["C19"], 6000, 80000, "a hello decision 'no sync' was taken between replicas with different head sets"),
         "C20" => d(&[("cache", 6), ("dag", 3), ("adversarial", 1)], &["C20"], 6000, 80000, "a peer cache update removed an ancestor entry or ignored an uncommitted address"),
-        "C15" => d(&[("crash", 7), ("crash-subsector", 1)], &["C15"], 3000, 40000, "crash inside a commit with >= 1 pending write partially surviving"),
+        "C15" => d(&[("crash", 6), ("crash-subsector", 2)], &["C15"], 3000, 40000, "crash inside a commit with >= 1 pending write partially surviving"),
         "C21" => d(&[("dag", 3), ("sync-size", 2), ("adversarial", 1), ("queue", 1)], &["C21"], 3000, 40000, "the run's searches, braids and sync sessions exercised pop, push and at least one of drain_above / cover_up_to / pop_duplicates on a monitored queue"),
         _ => None,
     }
